@@ -228,9 +228,12 @@ func checkVerificationLoopsTotal(r *Run, p *packages.Package) {
 func checkEOFGateCountsBytes(r *Run, p *packages.Package) {
 	const rule = "C20-R5-envelope"
 	info := p.TypesInfo
-	fd := FuncDecls(p)["requireEncryptedArchiveEOF"]
+	var fd *ast.FuncDecl
+	if fr := envelopeFrameReader(p); fr != nil {
+		fd = envelopeEOFGate(p, fr)
+	}
 	if fd == nil || fd.Body == nil {
-		r.Undecide("C20-R5: requireEncryptedArchiveEOF not found")
+		r.Undecide("C20-R5: the end-of-stream check of the frame reader (a function returning only an error that looks at io.EOF) was not found")
 		return
 	}
 	// the byte count of the Read call
